@@ -19,6 +19,9 @@ MUTATORS = {
     "update", "add", "insert", "reverse", "setdefault", "popitem", "discard", "rotate_dihedral", "set_distance",
     "set_angle", "set_dihedral", "new_array", "set_wyckoff_letters", "set_equivalent_atoms", "edit", "resize",
     "itemset", "put", "partition", "setflags", "__setitem__", "__delitem__", "__iadd__", "__imul__", "write",
+    # networkx graphs
+    "add_node", "add_edge", "add_nodes_from", "add_edges_from", "add_weighted_edges_from", "remove_node", "remove_edge", "remove_nodes_from",
+    "remove_edges_from",
 }
 # attributes that are views into their owner
 VIEW_ATTRS = {"positions", "cell", "arrays", "numbers", "pbc", "T", "flat", "real", "imag", "array", "info", "base"}
